@@ -75,7 +75,11 @@ func newScope(rootProvider *provider, parent *scope, ctx context.Context, cancel
 
 	// Initialize scoped services with no returns (initialization functions)
 	// These need to be called when the scope is created
-	for _, descriptor := range rootProvider.voidReturnScopedDescriptors {
+	rootProvider.voidReturnScopedDescriptorsMu.RLock()
+	initializers := rootProvider.voidReturnScopedDescriptors
+	rootProvider.voidReturnScopedDescriptorsMu.RUnlock()
+
+	for _, descriptor := range initializers {
 		if _, err := s.createInstance(descriptor); err != nil {
 			// Dispose what earlier initializers created and cancel the derived context
 			_ = s.Close()
